@@ -562,8 +562,16 @@ def run(ctx):
         core = core_workloads()
         rot = (ctx.seed * 5) % len(core)
         core = core[rot:] + core[:rot]
+        # count-based minimum first: the 2-thread core workloads are always swept completely, whatever the
+        # clock says (a stalled box must not push the floors below their minima); only the work beyond
+        # that - 3-thread core workloads and random workloads - is subject to the time caps.
         for i, wl in enumerate(core):
-            if not ctx.mine(i):
+            if ctx.mine(i) and len(wl["threads"]) == 2:
+                sweep(ctx, eng, probe, wl, stats, float("inf"))
+                perturbed(wl, 4)
+                ctx.count("core_workloads_always_swept")
+        for i, wl in enumerate(core):
+            if not ctx.mine(i) or len(wl["threads"]) == 2:
                 continue
             if ctx.elapsed() > t_core:
                 ctx.count("core_workloads_skipped_for_time")
@@ -583,13 +591,15 @@ def run(ctx):
         core = [wl for wl in core_workloads() if len(wl["threads"]) == 2]
         rng.shuffle(core)
         before = ctx.counters.get("preemption_points_reached", 0)
+        done = 0
         for i, wl in enumerate(core):
             if not ctx.mine(i):
                 continue
-            if ctx.elapsed() > t_instr:
+            if done >= 1 and ctx.elapsed() > t_instr:  # the first one is unconditional (count-based floor)
                 break
-            if sweep(ctx, eng, probe, wl, stats, t_instr + 2):
+            if sweep(ctx, eng, probe, wl, stats, float("inf") if done == 0 else t_instr + 2):
                 ctx.count("workloads_swept_at_instruction_granularity")
+            done += 1
         ctx.count("instruction_preemption_points_reached", ctx.counters.get("preemption_points_reached", 0) - before)
     ctx.count("distinct_interleavings_this_shard", len(stats.get("iids", ())))
     if "side_hang" in stats:
@@ -598,6 +608,7 @@ def run(ctx):
     ctx.require("short_timeout_reads_with_data_buffered_while_feeder_parked", 20)
     ctx.require("reader_parked_in_read_across_feed_and_close", 100)
     ctx.require("instruction_preemption_points_reached", 1000)
+    ctx.require("core_workloads_always_swept", 16)
     ctx.require("raise_site_lines_probed", 2)
     ctx.require("sequential_steps_compared", 5000)
     ctx.require("histories_checked", 800)
